@@ -8,7 +8,7 @@ import sympy as sp
 from ..src import walk, calls, call_name, dotted, const, loc, unparse, norm, AnchorError, ExtractError, last_attr
 from ..symx import SymExec, Opaque, Constraint, CondExpr, State, is_zero, rat
 from ..cfg import CFG
-from ..peval import Evaluator, Obj, Unknown, Raised, Returned
+from ..peval import Evaluator, Obj, Unknown, Raised
 from .. import builders as B
 
 CON = B.CONSTRAINT
@@ -22,12 +22,16 @@ BASE = "wntr/network/base.py"
 
 EXPLANATION = (
     "Formula extraction of the two junction mass-balance builders (linear form: demand, sum of INLET flows, sum of OUTLET flows, guarded leak term, "
-    "isolated guard, index set), of the tank/reservoir demand recomputation in store_results_in_network, and of Demands.at / TimeSeries.at / "
-    "Pattern.at; INLET/OUTLET adjacency filters of get_links_for_node; the product of the three sign conventions (balance row x adjacency x "
-    "link-row orientation) must be +1; every demand_timeseries_list.at call in wntr.sim passes sim_time + pattern_start and the global demand "
-    "multiplier; in run_sim every path of an iteration from the loop head to the solve refreshes the demand and source-head parameters; DD copies "
-    "the requested demand, PDD the demand variable; results are appended from node.demand / leak_demand / link.flow. Decides the equations and "
-    "bookkeeping for every topology; not the numerical tolerance attained.")
+    "isolated guard, index set), of the tank/reservoir demand recomputation in store_results_in_network, and of TimeSeries.at / Pattern.at; "
+    "get_links_for_node and Demands.at are evaluated on a fixture (a small network with parallel, reversed and self-looping links and non-link users "
+    "of a node; a demand list with symbolic entry values) so that what they return decides, not how they are written; the product of the three sign "
+    "conventions (balance row x adjacency x link-row orientation) must be +1; every demand_timeseries_list.at call in wntr.sim passes sim_time + "
+    "pattern_start and the global demand multiplier, and the refresh stores that value under the junction's own name; in run_sim every path of an "
+    "iteration from the loop head to the solve refreshes the demand and source-head parameters, and every call of the refresh runs through an element "
+    "loop that assigns unconditionally; DD copies the requested demand, PDD the demand variable; results are appended from node.demand / leak_demand / "
+    "link.flow. Extraction is by symbolic execution with conditional expressions split like if/else, bound variables alpha-normalised and path tests "
+    "decomposed into atoms, so statement shape and local names do not matter. Decides the equations and bookkeeping for every topology; not the "
+    "numerical tolerance attained.")
 RULE_TEXT = "one instance = one extracted formula / adjacency filter / call site / path rule; distinct by construct text"
 ASSUMPTIONS = ["the compiled evaluator evaluates the registered expression (C15); Newton converges (not decided)",
                "flows reported for links are the model's flow variables (store_results_in_network copies m.flow[name].value, checked)"]
@@ -335,6 +339,11 @@ class Conc(Evaluator):
 
     def e_Compare(self, n):
         try:
+            if len(n.ops) == 1 and isinstance(n.ops[0], (ast.In, ast.NotIn)):
+                a, b = self.ev(n.left), self.ev(n.comparators[0])
+                if isinstance(b, str) or isinstance(b, dict):      # substring / key test (the base class compares element-wise)
+                    return (a in b) == isinstance(n.ops[0], ast.In)
+                return any(a == x for x in self.iterate(b)) == isinstance(n.ops[0], ast.In)
             return Evaluator.e_Compare(self, n)
         except TypeError as e:
             raise Unknown("comparison %s: %s" % (unparse(n), e))
@@ -996,7 +1005,7 @@ def run(repo, chk):
     chk.expect(seent == {True, False}, "R-C01-5a", "TimeSeries.at: the paths with and without a pattern located", loc(tat), found=sorted(seent))
     pat_fn = repo.func(ELEM, "Pattern.at")
     chk.fn(pat_fn)
-    exp_ = SymExec(assume=lambda t: {"integer": True, "nonnegative": True} if t.startswith("len(") else {"real": True})
+    exp_ = SplitExec(assume=lambda t: {"integer": True, "nonnegative": True} if t.startswith("len(") else {"real": True})
     seenp = set()
     for o in exp_.run(pat_fn):
         if o.raised:
@@ -1199,4 +1208,117 @@ WITNESSES = [
     dict(name="demands-at-multiplier", file=ELEM, old="        else:\n            for dem in self._list:\n                demand += dem.at(time)*multiplier\n", new="        else:\n            for dem in self._list:\n                demand += dem.at(time)\n", rule="R-C01-5a"),
     dict(name="refresh-only-when-not-resolve", file=CORE, old="            wntr.sim.models.param.expected_demand_param(self._model, self._wn)\n", new="            if not first_step:\n                wntr.sim.models.param.expected_demand_param(self._model, self._wn)\n", rule="R-C01-5c"),
     dict(name="temp-var-preserving", file=CON, old="                expr = m.expected_demand[node_name]\n", new="                dem0 = m.expected_demand[node_name]\n                expr = dem0\n", silent=True),
+    # ---- behaviour-preserving rewrites of today's source that must stay quiet (one per tolerated shape)
+    dict(name="flow-copy-as-conditional-expression", file=HYD, old="        if link._is_isolated:\n            link._flow = 0\n        else:\n            link._flow = m.flow[name].value\n",
+         new="        link._flow = 0 if link._is_isolated else m.flow[name].value\n", silent=True),
+    dict(name="demand-variable-picked-by-conditional-expression", file=HYD,
+         old="            if mode in ['PDD', 'PDA']:\n                node._demand = m.demand[name].value\n            else:\n                node._demand = m.expected_demand[name].value\n"
+             "            if node.leak_status:\n                node._leak_demand = m.leak_rate[name].value\n            else:\n                node._leak_demand = 0\n\n    for name, node in wn.tanks():",
+         new="            demand_var = m.demand if mode in ['PDD', 'PDA'] else m.expected_demand\n            node._demand = demand_var[name].value\n"
+             "            node._leak_demand = m.leak_rate[name].value if node.leak_status else 0\n\n    for name, node in wn.tanks():", silent=True),
+    dict(name="demand-mode-tested-the-other-way-round", file=HYD,
+         old="            if mode in ['PDD', 'PDA']:\n                node._demand = m.demand[name].value\n            else:\n                node._demand = m.expected_demand[name].value\n",
+         new="            if mode == 'DD':\n                node._demand = m.expected_demand[name].value\n            else:\n                node._demand = m.demand[name].value\n", silent=True),
+    dict(name="net-inflow-helper-and-renamed-loop-variables", file=HYD,
+         old="    for name, node in wn.tanks():\n        if node.leak_status:\n            node._leak_demand = m.leak_rate[name].value\n        else:\n            node._leak_demand = 0\n"
+             "        node._demand = (sum(wn.get_link(link_name).flow for link_name in wn.get_links_for_node(name, 'INLET')) -\n"
+             "                       sum(wn.get_link(link_name).flow for link_name in wn.get_links_for_node(name, 'OUTLET')) -\n                       node._leak_demand)\n",
+         new="    for tank_name, tank in wn.tanks():\n        leak = m.leak_rate[tank_name].value if tank.leak_status else 0\n"
+             "        tank._demand = _net_link_inflow(wn, tank_name) - leak\n        tank._leak_demand = leak\n",
+         also=[("        node._leak_demand = 0\n        node._demand = (sum(wn.get_link(link_name).flow for link_name in wn.get_links_for_node(name, 'INLET')) -\n"
+                "                       sum(wn.get_link(link_name).flow for link_name in wn.get_links_for_node(name, 'OUTLET')))",
+                "        node._leak_demand = 0\n        node._demand = _net_link_inflow(wn, name)"),
+               ("def store_results_in_network(wn, m):\n",
+                "def _net_link_inflow(wn, node_name):\n    return (sum(wn.get_link(link_name).flow for link_name in wn.get_links_for_node(node_name, flag='INLET')) -\n"
+                "            sum(wn.get_link(link_name).flow for link_name in wn.get_links_for_node(node_name, flag='OUTLET')))\n\n\ndef store_results_in_network(wn, m):\n")],
+         silent=True),
+    dict(name="results-appended-with-renamed-loop-variables", file=HYD,
+         old="    for name, node in wn.tanks():\n        node_res['head'][name].append(node.head)\n        node_res['demand'][name].append(node.demand)\n"
+             "        node_res['pressure'][name].append(node.head - node.elevation)\n        node_res['leak_demand'][name].append(node.leak_demand)\n",
+         new="    for tank_name, tank in wn.tanks():\n        node_res['head'][tank_name].append(tank.head)\n        node_res['demand'][tank_name].append(tank.demand)\n"
+             "        node_res['pressure'][tank_name].append(tank.head - tank.elevation)\n        node_res['leak_demand'][tank_name].append(tank.leak_demand)\n", silent=True),
+    dict(name="create-and-refresh-loops-merged", file=PAR,
+         old="    if not hasattr(m, 'expected_demand'):\n        m.expected_demand = aml.ParamDict()\n\n        for node_name, node in wn.junctions():\n"
+             "            m.expected_demand[node_name] = aml.Param(node.demand_timeseries_list.at(wn.sim_time+pattern_start, multiplier=demand_multiplier))\n"
+             "    else:\n        for node_name, node in wn.junctions():\n"
+             "            m.expected_demand[node_name].value = node.demand_timeseries_list.at(wn.sim_time+pattern_start, multiplier=demand_multiplier)\n",
+         new="    first_call = not hasattr(m, 'expected_demand')\n    if first_call:\n        m.expected_demand = aml.ParamDict()\n\n    for node_name, node in wn.junctions():\n"
+             "        pattern_time = wn.sim_time + pattern_start\n        demands = node.demand_timeseries_list\n        expected_demand = demands.at(pattern_time, multiplier=demand_multiplier)\n"
+             "        _set_param_value(m.expected_demand, node_name, expected_demand, first_call)\n",
+         also=[("def source_head_param(m, wn):\n",
+                "def _set_param_value(param_dict, key, value, create):\n    if create:\n        param_dict[key] = aml.Param(value)\n    else:\n        param_dict[key].value = value\n\n\n"
+                "def source_head_param(m, wn):\n")], silent=True),
+    dict(name="adjacency-as-one-loop", file=MODEL,
+         old="        else:\n            if flag.upper() == \"ALL\":\n                return [\n                    link_name\n                    for link_name, link_type in link_data\n"
+             "                    if link_type in link_types\n                    and node_name in {self.get_link(link_name).start_node_name, self.get_link(link_name).end_node_name}\n                ]\n"
+             "            elif flag.upper() == \"INLET\":\n                return [\n                    link_name\n                    for link_name, link_type in link_data\n"
+             "                    if link_type in link_types and node_name == self.get_link(link_name).end_node_name\n                ]\n"
+             "            elif flag.upper() == \"OUTLET\":\n                return [\n                    link_name\n                    for link_name, link_type in link_data\n"
+             "                    if link_type in link_types and node_name == self.get_link(link_name).start_node_name\n                ]\n"
+             "            else:\n                logger.error(\"Unrecognized flag: {0}\".format(flag))\n                raise ValueError(\"Unrecognized flag: {0}\".format(flag))\n",
+         new="        flag_upper = flag.upper()\n        if flag_upper not in (\"ALL\", \"INLET\", \"OUTLET\"):\n            message = f\"Unrecognized flag: {flag}\"\n            logger.error(message)\n"
+             "            raise ValueError(message)\n        connected = []\n        for link_name, link_type in link_data:\n            if link_type not in link_types:\n                continue\n"
+             "            link = self.get_link(link_name)\n            ends = {\"ALL\": (link.start_node_name, link.end_node_name), \"INLET\": (link.end_node_name,), \"OUTLET\": (link.start_node_name,)}[flag_upper]\n"
+             "            if node_name in ends:\n                connected.append(link_name)\n        return connected\n", silent=True),
+    dict(name="adjacency-test-picked-as-nested-function", file=MODEL,
+         old="            elif flag.upper() == \"INLET\":\n                return [\n                    link_name\n                    for link_name, link_type in link_data\n"
+             "                    if link_type in link_types and node_name == self.get_link(link_name).end_node_name\n                ]\n",
+         new="            elif flag.upper() == \"INLET\":\n                def is_attached(link):\n                    return node_name == link.end_node_name\n"
+             "                return [link_name for link_name, link_type in link_data if link_type in link_types and is_attached(self.get_link(link_name))]\n", silent=True),
+    dict(name="demands-at-one-loop", file=ELEM,
+         old="        if category:\n            for dem in self._list:\n                if dem.category == category:  \n                    demand += dem.at(time)*multiplier\n"
+             "        else:\n            for dem in self._list:\n                demand += dem.at(time)*multiplier\n        return demand\n",
+         new="        all_categories = not category\n        for dem in self._list:\n            if all_categories or dem.category == category:\n                demand += dem.at(time)*multiplier\n        return demand\n",
+         silent=True),
+    dict(name="demands-at-as-sum", file=ELEM,
+         old="        if category:\n            for dem in self._list:\n                if dem.category == category:  \n                    demand += dem.at(time)*multiplier\n"
+             "        else:\n            for dem in self._list:\n                demand += dem.at(time)*multiplier\n        return demand\n",
+         new="        selected = [dem for dem in self._list if not category or dem.category == category]\n        return demand + multiplier*sum(dem.at(time) for dem in selected)\n", silent=True),
+    dict(name="timeseries-pattern-looked-up-once", file=ELEM, old="        if not self.pattern:\n            return self._base\n        return self._base * self.pattern.at(time)\n",
+         new="        pattern = self.pattern\n        if pattern is None:\n            return self._base\n        return self._base * pattern.at(time)\n", silent=True),
+    dict(name="graph-entry-as-conditional-expression", file=CORE,
+         old="            if link.status == wntr.network.LinkStatus.Closed:\n                vals.append(0)\n                vals.append(0)\n            else:\n                vals.append(1)\n                vals.append(1)\n",
+         new="            val = 1 if link.status != wntr.network.LinkStatus.Closed else 0\n            vals.append(val)\n            vals.append(val)\n", silent=True),
+    dict(name="isolated-test-compared-with-false", file=CON, old="            if not node._is_isolated:\n                expr = m.expected_demand[node_name]\n",
+         new="            if node._is_isolated == False:\n                expr = m.expected_demand[node_name]\n", silent=True),
+    dict(name="balance-row-with-sum-and-renamed-variables", file=CON,
+         old="                for link_name in wn.get_links_for_node(node_name, flag='INLET'):\n                    expr -= m.flow[link_name]\n                for link_name in wn.get_links_for_node(node_name, flag='OUTLET'):\n"
+             "                    expr += m.flow[link_name]\n                if node.leak_status:\n                    expr += m.leak_rate[node_name]\n                m.mass_balance[node_name]",
+         new="                expr -= sum(m.flow[l_in] for l_in in wn.get_links_for_node(node_name, 'INLET'))\n                for l_out in wn.get_links_for_node(node_name, 'OUTLET'):\n"
+             "                    expr += m.flow[l_out]\n                expr += m.leak_rate[node_name] if node.leak_status else 0\n                m.mass_balance[node_name]", silent=True),
+    # ---- and the same shapes with the defect put back: the tolerant extraction still has its teeth
+    dict(name="merged-refresh-loop-skips-unpatterned-junctions", file=PAR,
+         old="    if not hasattr(m, 'expected_demand'):\n        m.expected_demand = aml.ParamDict()\n\n        for node_name, node in wn.junctions():\n"
+             "            m.expected_demand[node_name] = aml.Param(node.demand_timeseries_list.at(wn.sim_time+pattern_start, multiplier=demand_multiplier))\n"
+             "    else:\n        for node_name, node in wn.junctions():\n"
+             "            m.expected_demand[node_name].value = node.demand_timeseries_list.at(wn.sim_time+pattern_start, multiplier=demand_multiplier)\n",
+         new="    first_call = not hasattr(m, 'expected_demand')\n    if first_call:\n        m.expected_demand = aml.ParamDict()\n\n    for node_name, node in wn.junctions():\n"
+             "        value = node.demand_timeseries_list.at(wn.sim_time+pattern_start, multiplier=demand_multiplier)\n        if first_call:\n            m.expected_demand[node_name] = aml.Param(value)\n"
+             "        elif node.demand_timeseries_list[0].pattern is not None:\n            m.expected_demand[node_name].value = value\n", rule="R-C01-5e"),
+    dict(name="one-loop-adjacency-inlet-is-start", file=MODEL,
+         old="        else:\n            if flag.upper() == \"ALL\":\n                return [\n                    link_name\n                    for link_name, link_type in link_data\n"
+             "                    if link_type in link_types\n                    and node_name in {self.get_link(link_name).start_node_name, self.get_link(link_name).end_node_name}\n                ]\n"
+             "            elif flag.upper() == \"INLET\":\n                return [\n                    link_name\n                    for link_name, link_type in link_data\n"
+             "                    if link_type in link_types and node_name == self.get_link(link_name).end_node_name\n                ]\n"
+             "            elif flag.upper() == \"OUTLET\":\n                return [\n                    link_name\n                    for link_name, link_type in link_data\n"
+             "                    if link_type in link_types and node_name == self.get_link(link_name).start_node_name\n                ]\n"
+             "            else:\n                logger.error(\"Unrecognized flag: {0}\".format(flag))\n                raise ValueError(\"Unrecognized flag: {0}\".format(flag))\n",
+         new="        flag_upper = flag.upper()\n        connected = []\n        for link_name, link_type in link_data:\n            if link_type not in link_types:\n                continue\n"
+             "            link = self.get_link(link_name)\n            ends = {\"ALL\": (link.start_node_name, link.end_node_name), \"INLET\": (link.start_node_name,), \"OUTLET\": (link.start_node_name,)}[flag_upper]\n"
+             "            if node_name in ends:\n                connected.append(link_name)\n        return connected\n", rule="R-C01-2"),
+    dict(name="adjacency-type-filter-dropped", file=MODEL, old="                    if link_type in link_types and node_name == self.get_link(link_name).start_node_name\n",
+         new="                    if node_name == self.get_link(link_name).start_node_name\n", rule="R-C01-2"),
+    dict(name="one-loop-demands-at-ignores-category", file=ELEM,
+         old="        if category:\n            for dem in self._list:\n                if dem.category == category:  \n                    demand += dem.at(time)*multiplier\n"
+             "        else:\n            for dem in self._list:\n                demand += dem.at(time)*multiplier\n        return demand\n",
+         new="        for dem in self._list:\n            if category is None or dem.category == category:\n                demand += dem.at(time)*multiplier\n        return demand\n", rule="R-C01-5a"),
+    dict(name="conditional-expression-leak-inverted", file=HYD,
+         old="        if node.leak_status:\n            node._leak_demand = m.leak_rate[name].value\n        else:\n            node._leak_demand = 0\n        node._demand = (sum(",
+         new="        node._leak_demand = 0 if node.leak_status else m.leak_rate[name].value\n        node._demand = (sum(", rule="R-C01-4"),
+    dict(name="graph-entry-also-zero-when-isolated", file=CORE,
+         old="            if link.status == wntr.network.LinkStatus.Closed:\n                vals.append(0)\n                vals.append(0)\n            else:\n                vals.append(1)\n                vals.append(1)\n",
+         new="            val = 0 if (link._is_isolated or link.status == wntr.network.LinkStatus.Closed) else 1\n            vals.append(val)\n            vals.append(val)\n", rule="R-C01-6"),
+    dict(name="clock-hoisted-without-pattern-start", file=PAR,
+         old="            m.expected_demand[node_name].value = node.demand_timeseries_list.at(wn.sim_time+pattern_start, multiplier=demand_multiplier)",
+         new="            demands = node.demand_timeseries_list\n            clock = wn.sim_time\n            m.expected_demand[node_name].value = demands.at(clock, multiplier=demand_multiplier)", rule="R-C01-5b"),
 ]
